@@ -617,7 +617,7 @@ async fn run_case(w: &World, seed: u64, stream: &str, i: u64, am0: Arc<AuthManag
                 line.push2(&t);
                 s.co.tallies.push("auth+token".into());
             }
-        } else if form < 34 && !s.toks.is_empty() {
+        } else if form < (if o.ticks { 62 } else { 34 }) && !s.toks.is_empty() {
             form_label = "TOKEN";
             let ti = r.below(s.toks.len() as u64) as usize;
             let t = s.toks[ti].clone();
@@ -631,7 +631,7 @@ async fn run_case(w: &World, seed: u64, stream: &str, i: u64, am0: Arc<AuthManag
                 c = l2;
             }
             line.push2(&c);
-            let tv = r.below(12);
+            let tv = if o.ticks && r.chance(1, 2) { 11 } else { r.below(12) };
             let tl = match tv {
                 0 => { line.push(" token "); line.push2(&t); "lowercase-marker" }
                 1 => { line.push(" TOKEN "); line.push(&scen::rand_hex(&mut r, 64)); "unknown" }
